@@ -1,7 +1,7 @@
 /-
   C11 — The framework is quiescent between reaction trees (control part: counter, postponed queue, callbacks).
 -/
-import Cobweb.Proofs.CtlStep
+import Cobweb.Proofs.Flags
 
 namespace Cobweb.C11
 
@@ -23,6 +23,15 @@ theorem quiescent_control (hc : Ctl s0) (hr : Reach p h s0 s) (hq : s.stack = []
     have := c.takenRunning e hsto
     rw [hq] at this; cases this
 
-example : Ctl ({} : St) := ctl_default
+/-- At quiescence no event metadata is marked as being read and the world command queue is empty. -/
+theorem quiescent_flags (hc : Ctl s0) (ho : OnceInv s0) (hf : FlagInv s0) (hr : Reach p h s0 s) (hq : s.stack = []) :
+    s.trkSys.reacting = false ∧ s.trkEvt.reacting = false ∧ s.trkEnt.reacting = false ∧ s.trkDsp.reacting = false ∧ s.wq = [] := by
+  obtain ⟨_, _, f⟩ := all_reach p h hc ho hf hr
+  have := f.top; rw [hq] at this
+  have hi : Fl s = (false, false, false, false) := this.1
+  simp only [Fl, Prod.mk.injEq] at hi
+  exact ⟨hi.1, hi.2.1, hi.2.2.1, hi.2.2.2, this.2⟩
+
+example : Ctl ({} : St) ∧ OnceInv ({} : St) ∧ FlagInv ({} : St) := ⟨ctl_default, once_default, flag_default⟩
 
 end Cobweb.C11
